@@ -379,12 +379,17 @@ def storage_random_replay(payload):
     return any(not r["ok"] for r in res)
 
 
-def sim_histories(rep, module, cfg, consts, label, header, name, num, depth, workers=8, timeout=1800):
+def sim_histories(rep, module, cfg, consts, label, header, name, num, depth, workers=8, timeout=1800, fan=0):
     """TLC -simulate: random walks of the bounded model; each walk prints its history when it reaches
-    EmitDepth operations.  Returns (part files, count)."""
+    EmitDepth operations.  fan > 0 (MC_MapWalk / MC_Array_sim): keep EVERY candidate successor TLC generated in the last `fan`
+    steps of each walk - the complete one-step closure of the states the walk passes through there (for edge-mode replay).
+    Returns (part files, count)."""
     d = vlib.tlc_dir(name)
     text = open(os.path.join(d, cfg)).read()
-    for k, v in dict(consts, EmitDepth=depth).items():
+    allc = dict(consts, EmitDepth=depth)
+    if re.search(r"(?m)^\s*FanFrom\s*=", text):
+        allc["FanFrom"] = depth - fan
+    for k, v in allc.items():
         text, n = re.subn(r"(?m)^(\s*%s\s*=\s*).*$" % re.escape(k), lambda m: m.group(1) + str(v), text)
         if n == 0:
             raise Inconclusive("constant %s not in %s" % (k, cfg))
@@ -411,7 +416,12 @@ def sim_histories(rep, module, cfg, consts, label, header, name, num, depth, wor
     for s in vlib.emitted_lines(so):
         # TLC evaluates the emitting invariant on every candidate successor of the last step: keep one walk per prefix
         key = s[:s.rfind(",[")] if ",[" in s else s
-        if key in seen or n >= num:
+        if fan:
+            key = hashlib.blake2b(s.encode(), digest_size=10).digest()
+            last = s[s.rfind(",[") + 1:]
+            if key in seen or n >= num * 100000 or last.startswith('["mget"') or last.startswith('["mhas"') or last.startswith('["get"'):
+                continue
+        elif key in seen or n >= num:
             continue
         seen.add(key)
         fh[n % PARTS].write(s + "\n")
@@ -424,6 +434,140 @@ def sim_histories(rep, module, cfg, consts, label, header, name, num, depth, wor
     if n == 0:
         raise Inconclusive("simulation emitted no walk")
     return files, n
+
+
+def boundary_fan_stage(rep, stage, run_cmd, engine, module, cfg, consts, label, header, trace_module, tcfg, what,
+                       num, depth, fan, want=("rootfull", "midfull"), maxcuts=6, workers=2, nhdr=0, wrap=False):
+    """State-directed one-step closure.  TLC simulates growth walks and prints, for every state a walk passes through in its last
+    `fan` steps, EVERY candidate successor (the printing invariant is evaluated on all of them).  The harness scans each walk once
+    and reports the steps at which the real container sits on a size boundary (a full root / inner index slab).  Exactly there the
+    complete one-step closure is replayed (edge mode: the prefix silently, the last operation recorded and judged).
+    nhdr: leading non-operation entries of a history (the digest table of map walks)."""
+    d = vlib.tlc_dir(stage)
+    text = open(os.path.join(d, cfg)).read()
+    for k, v in dict(consts, EmitDepth=depth, FanFrom=depth - fan).items():
+        text, n = re.subn(r"(?m)^(\s*%s\s*=\s*).*$" % re.escape(k), lambda m: m.group(1) + str(v), text)
+        if n == 0:
+            raise Inconclusive("constant %s not in %s" % (k, cfg))
+    open(os.path.join(d, cfg), "w").write(text)
+    so = os.path.join(d, "stdout.txt")
+    per = max(1, (num + workers - 1) // workers)
+    r = vlib.run_tlc(d, module, cfg, workers=workers, timeout=1800, stdout_file=so,
+                     extra=["-simulate", "num=%d" % per, "-depth", str(depth + 4), "-seed", str(rep.seed)], heap="4g")
+    if "Error:" in r.out:
+        raise Inconclusive("TLC simulation of %s/%s failed (defect of the MODEL):\n%s" % (module, cfg, r.out[-3000:]))
+    m = re.search(r"The number of states generated: (\d+)", r.out)
+    gen = int(m.group(1)) if m else 0
+    rep.models.append({"config": label + " (simulate, one-step closure of the last %d states of each walk of depth %d)" % (fan, depth),
+                       "states_generated": gen, "wall_s": round(r.wall, 1)})
+    rep.transitions += gen
+    rep.states += gen
+    # pass 1: the walks themselves are the longest printed histories (cheap length measure: number of tuples)
+    def nops(s):
+        if nhdr:
+            # skip the digest table <<"dig", <<d0, d1, d2, d3>>, ...>> (nested tuples); operations are flat tuples
+            return s[s.index("]],") + 2:].count(",[")
+        return s.count("],[") + 1
+    top = 0
+    for s in vlib.emitted_lines(so):
+        top = max(top, nops(s))
+    if top == 0:
+        raise Inconclusive("simulation emitted nothing")
+    walks, seenw = [], set()
+    for s in vlib.emitted_lines(so):
+        if nops(s) == top:
+            ops = json.loads(s)
+            key = json.dumps(ops[:-1])
+            if key not in seenw:
+                seenw.add(key)
+                walks.append(ops)
+    walks = walks[:num]
+    # scan: where does the real container sit on a boundary?
+    sf = os.path.join(vlib.scratch(), stage + "-scan.ndjson")
+    with open(sf, "w") as f:
+        f.write(json.dumps(header) + "\n")
+        for w in walks:
+            f.write(json.dumps(w) + "\n")
+    outs, _ = run_parts(run_cmd + ["-mode", "scan"], [sf], stage + "-scan")
+    cuts = {}
+    rcs = {}
+    with open(outs[0]) as f:
+        for line in f:
+            j = json.loads(line)
+            rcs.setdefault(j["t"], []).append(j["rc"])
+            for fl in j["flags"]:
+                if fl in want and top - fan <= j["n"] < top:
+                    cuts.setdefault((j["t"], fl), []).append(j["n"])
+    chosen = {}
+    for (t, fl), ns in cuts.items():
+        # spread the cuts over the flagged stretch
+        pick = ns if len(ns) <= maxcuts else [ns[i * (len(ns) - 1) // (maxcuts - 1)] for i in range(maxcuts)]
+        for n in pick:
+            chosen.setdefault(t, set()).add(n)
+    files = [os.path.join(vlib.scratch(), "%s-h-%d.ndjson" % (stage, k)) for k in range(PARTS)]
+    fh = [open(f, "w") for f in files]
+    for f in fh:
+        f.write(json.dumps(header) + "\n")
+    nh = 0
+    want_pre = {}
+    for t, ns in chosen.items():
+        w = walks[t - 1]
+        for n in ns:
+            want_pre.setdefault(n + 1, set()).add(json.dumps(w[:nhdr + n]))
+    seenl = set()
+    for s in vlib.emitted_lines(so):
+        k = nops(s)
+        if k not in want_pre:
+            continue
+        hk = hashlib.blake2b(s.encode(), digest_size=10).digest()
+        if hk in seenl:
+            continue
+        seenl.add(hk)
+        ops = json.loads(s)
+        if ops[-1][0] in ("mget", "mhas", "get") or json.dumps(ops[:-1]) not in want_pre[k]:
+            continue
+        fh[nh % PARTS].write(s + "\n")
+        nh += 1
+    os.remove(so)
+    for f in fh:
+        f.close()
+    rep.stages[stage] = {"walks": len(walks), "boundary_states": {"%d:%s" % k: v for k, v in cuts.items()}, "histories": nh,
+                         "root_children_in_window": {t: [min(v[top - fan:] or [0]), max(v[top - fan:] or [0])] for t, v in rcs.items()}, "root_children_trajectory": {t: v[::5] for t, v in rcs.items()}}
+    if nh == 0:
+        rep.note("%s: no walk reached a boundary state (%s) in its fan window" % (stage, ",".join(want)))
+        return 0
+    base = len(rep.distinct)
+    rep.distinct.update(range(base, base + nh))
+    st = rep.stages[stage]
+    if wrap:
+        hist_stage(rep, stage, run_cmd + ["-tail", "2"], engine, trace_module, tcfg, wrap_persist(files, nhdr), "tail", what)
+    else:
+        hist_stage(rep, stage, run_cmd, engine, trace_module, tcfg, files, "edge", what)
+    rep.stages[stage].update({"walks": st["walks"], "boundary_states": st["boundary_states"], "root_children_in_window": st["root_children_in_window"]})
+    return nh
+
+
+def wrap_persist(files, nhdr=0):
+    """Rewrite edge histories  prefix + [op]  into  prefix + [commit (+ cache drop)] + [op] + [commit]: the operation then acts on
+    slabs that are clean in the read cache (or freshly decoded from the ledger), so a restructuring step that forgets to put a
+    changed slab into the write set is visible right after the operation (CacheCoherent) and after the closing commit (Durable,
+    a brand-new storage reads the registers).  Run with  -mode tail -tail 2  (Load, the operation, the closing commit)."""
+    for f in files:
+        with open(f) as fh:
+            lines = fh.read().split("\n")
+        out = [lines[0]]
+        for ln in lines[1:]:
+            if not ln.strip():
+                continue
+            ops = json.loads(ln)
+            if len(ops) <= nhdr:
+                continue
+            k = vlib.stable_hash(ln) % 3
+            mid = [["commit", "det", 1, 0]] + ([["dropcache"]] if k == 1 else []) + ([["crash"]] if k == 2 else [])
+            out.append(json.dumps(ops[:-1] + mid + [ops[-1], ["commit", "nondet" if k else "det", 2, 0]]))
+        with open(f, "w") as fh:
+            fh.write("\n".join(out) + "\n")
+    return files
 
 
 def frac(key, num, den):
@@ -526,6 +670,8 @@ def check_C05(rep):
     quick = rep.tier == "quick"
     map_collide_stage(rep, "MapTrace_C05.cfg", "real OrderedMap " + what, "c05", 255, 3, (1, 40) if quick else (1, 4))
     map_slab_stage(rep, "MapTrace_C05.cfg", "real OrderedMap " + what, "c05")
+    array_fan_stage(rep, "ArrayTrace_C05.cfg", "real Array " + what + " (operation on a full root index slab)", "c05")
+    map_fan_stage(rep, "MapTrace_C05.cfg", "real OrderedMap " + what + " (operation on a full root index slab)", "c05")
     for (T, nkeys, mode, ksz, vs, maxel, num, depth) in ([(256, 40, "spread", 5, "{12, 40, 60, 101}", 107, 14, 150), (256, 24, "clustered", 5, "{12, 40}", 107, 8, 100)] if quick else
                                                          [(256, 40, "spread", 5, "{12, 40, 60, 101}", 107, 300, 400), (256, 24, "clustered", 5, "{12, 40, 90}", 107, 200, 300),
                                                           (512, 60, "spread", 9, "{12, 100, 229}", 235, 150, 500), (1024, 80, "spread", 9, "{12, 200, 485}", 491, 60, 600)]):
@@ -594,6 +740,34 @@ def map_builtin_stage(rep, tcfg, what, prefix, T, nkeys, num, depth, mask=3):
     base = len(rep.distinct)
     rep.distinct.update(range(base, base + wn))
     hist_stage(rep, nm, ["map-run", "-builtinmask", str(mask)], "map", "MapTrace.tla", tcfg, wf, "full", what)
+
+
+def map_fan_stage(rep, tcfg, what, prefix, wrap=False):
+    """Boundary search: growth walks over keys of which one in three belongs to a colliding pair (collision groups of exactly two,
+    large values, so that groups spill into external slabs and slabs hold two or three entries) into the region where the root index slab is full (20 children at slab
+    256); at the states where the real root index slab is full, TLC's complete set of candidate successors (every insert,
+    overwrite and removal of every key) is replayed from that state."""
+    quick = rep.tier == "quick"
+    for (depth, fan, num) in ([(110, 70, 2)] if quick else [(110, 70, 12), (120, 80, 12)]):
+        # growth throughout (inside the fan window removals of present keys are candidates as well)
+        boundary_fan_stage(rep, "%s-mapfan%d" % (prefix, depth), ["map-run"], "map", "MC_MapWalk.tla", "MC_MapWalk.cfg",
+                           {"Keys": keyset(150), "DigMode": '"mixed"', "KSz": 5, "VSizes": "{60, 95}", "AllowPop": "FALSE",
+                            "GrowUntil": 1000, "ShrinkFrom": 1000000},
+                           "MC_MapWalk mixed digests (collision groups of two among spread keys), large values", {"cfg": {"T": 256, "limit": 255}},
+                           "MapTrace.tla", tcfg, what, num, depth, fan, nhdr=1, wrap=wrap)
+
+
+def array_fan_stage(rep, tcfg, what, prefix, wrap=False):
+    """Boundary search for arrays: growth walks into the region where the root index slab is full (26 children at slab 256); at the
+    states where the real root index slab is full, TLC's complete set of candidate successors (every insert, overwrite and removal
+    at every index, every size) is replayed from that state."""
+    quick = rep.tier == "quick"
+    for (depth, fan, num) in ([(170, 100, 2)] if quick else [(170, 100, 10), (190, 120, 10)]):
+        # large elements: two or three per slab, so that the root index slab fills up with ~60 elements
+        boundary_fan_stage(rep, "%s-arrayfan%d" % (prefix, depth), ["array-run"], "array", "MC_Array.tla", "MC_Array_sim.cfg",
+                           {"T": 256, "Sizes": "{90, 117}", "WithReads": "FALSE", "AllowPop": "FALSE", "MaxElems": 100000,
+                            "GrowUntil": 1000, "ShrinkFrom": 1000000},
+                           "MC_Array T=256 growth walks", {"cfg": {"T": 256}}, "ArrayTrace.tla", tcfg, what, num, depth, fan, nhdr=0, wrap=wrap)
 
 
 def map_slab_stage(rep, tcfg, what, prefix):
@@ -1429,6 +1603,23 @@ def check_C03(rep):
     storage_stage(rep, "c03-storage-edges", "SlabStorageTrace_C03.cfg", files, "edge")
     persist_stages(rep, "c03", "C03", "ledger does not hold the last committed state")
     deep_map_stage(rep, "c03", "C03", "ledger does not hold the last committed state (3-level map)")
+    # every explored transition of the bounded array / map models executed on committed (clean, or freshly decoded) slabs
+    what = "an operation on committed slabs is not completely written by the next commit"
+    files, n, total = model_histories(rep, "MC_Array.tla", "MC_Array.cfg", {"EmitEdges": "TRUE", "MaxElems": 5 if quick else 6, "T": 256, "WithReads": "FALSE"},
+                                      "MC_Array T=256 MaxElems=%d, each transition wrapped as commit(+drop/reopen), op, commit" % (5 if quick else 6),
+                                      {"cfg": {"T": 256}}, lambda ops, key: frac(key + rep.seed, 1, 4 if quick else 1), "c03-awrap")
+    base = len(rep.distinct)
+    rep.distinct.update(range(base, base + n))
+    hist_stage(rep, "c03-array-edges-wrapped", ["array-run", "-tail", "2"], "array", "ArrayTrace.tla", "ArrayTrace_C03.cfg", wrap_persist(files), "tail", what)
+    nk, mk, den = (6, 5, 16) if quick else (7, 6, 8)
+    files, n, total = model_histories(rep, "MC_MapSlab.tla", "MC_MapSlab.cfg", {"EmitEdges": "TRUE", "Keys": keyset(nk), "MaxKeys": mk},
+                                      "MC_MapSlab T=256 %d keys (<= %d present), each transition wrapped as commit(+drop/reopen), op, commit" % (nk, mk),
+                                      {"cfg": {"T": 256, "limit": 255}}, lambda ops, key: frac(key + rep.seed, 1, den), "c03-mwrap", timeout=7200)
+    base = len(rep.distinct)
+    rep.distinct.update(range(base, base + n))
+    hist_stage(rep, "c03-mapslab-edges-wrapped", ["map-run", "-tail", "2"], "map", "MapTrace.tla", "MapTrace_C03.cfg", wrap_persist(files, 1), "tail", what)
+    array_fan_stage(rep, "ArrayTrace_C03.cfg", what, "c03", wrap=True)
+    map_fan_stage(rep, "MapTrace_C03.cfg", what, "c03", wrap=True)
     # nested containers: every heap shape of <= 2 containers with every placement of commit / cache drop / crash, and walks
     what = "ledger does not hold the last committed state (nested containers)"
     nested_bfs_stage(rep, "c03", "NestedTrace_C03.cfg", what, only=("p",))
